@@ -3,6 +3,7 @@ C16 property theorems. Only statements of the property + non-vacuity examples li
 helper lemmas are in the *Lemmas files.
 -/
 import BV.C16.Lemmas
+import BV.Generated.C16
 namespace BV.C16
 
 /-! ### base58 -/
@@ -41,5 +42,256 @@ theorem checkEncode_checkDecode (H : List UInt8 → List UInt8) (hH : ∀ x, (H 
   Lemmas.checkEncode_checkDecode H hH s p v h
 
 example : ∀ x : List UInt8, ((fun _ => [1, 2, 3, 4]) x : List UInt8).length = 4 := fun _ => rfl
+
+/-! ### ConvertBits (8 ⇄ 5) -/
+
+/-- Bytes → 5-bit symbols with padding always succeeds (⌈8n/5⌉ symbols below 32) and regrouping back without
+padding returns the bytes. -/
+theorem convertBits_roundtrip (data : List Nat) (h : ∀ d ∈ data, d < 256) :
+    ∃ c, convertBits data 8 5 true = .ok c ∧ (∀ v ∈ c, v < 32) ∧
+      c.length = (8 * data.length + 4) / 5 ∧ convertBits c 5 8 false = .ok data :=
+  Lemmas.convertBits_8_5_8 data h
+
+/-- Whatever 5→8 (no padding) accepts re-encodes to exactly the same symbols, so the padding rules (at most
+four spare bits, all zero) leave one symbol string per byte string. -/
+theorem convertBits_roundtrip_decode (c d : List Nat) (hc : ∀ v ∈ c, v < 32)
+    (h : convertBits c 5 8 false = .ok d) :
+    (∀ v ∈ d, v < 256) ∧ d.length = 5 * c.length / 8 ∧ convertBits d 8 5 true = .ok c :=
+  Lemmas.convertBits_5_8_5 c d hc h
+
+example : convertBits [0, 14, 20, 0] 5 8 false = .ok [3, 168] := by rfl
+/-- padding rejection: a non-zero spare bit, or a whole spare symbol, is refused -/
+theorem convertBits_padding_rejected :
+    convertBits [0, 14, 20, 1] 5 8 false = .error .incomplete ∧
+    convertBits [0, 14, 20, 0, 0, 0] 5 8 false = .error .incomplete := ⟨by rfl, by rfl⟩
+
+/-! ### bech32 / bech32m -/
+
+/-- polymod over HRP ‖ data ‖ created checksum equals the checksum constant (for every HRP, 5-bit data and
+constant below 2^30): the BCH code is linear, proved on the bit-level model of `bech32Polymod`. -/
+theorem checksum_create_verify (hrp : List UInt8) (data : List Nat) (hd : ∀ v ∈ data, v < 32) (k : Nat)
+    (hk : k < 2 ^ 30) : polymod hrp data (createChecksum hrp data k) = k :=
+  Lemmas.polymod_createChecksum hrp data hd k hk
+
+/-- the checksum that verifies against a constant is unique: no second six-symbol suffix is accepted. -/
+theorem checksum_unique (hrp : List UInt8) (data cs : List Nat) (hd : ∀ v ∈ data, v < 32)
+    (hl : cs.length = 6) (hcs : ∀ v ∈ cs, v < 32) (k : Nat)
+    (h : polymod hrp data cs = k) : cs = createChecksum hrp data k :=
+  Lemmas.checksum_unique hrp data cs hd hl hcs k h
+
+/-- encode → decode: for a clean lower-case HRP, 5-bit data and total length ≤ 90 -/
+theorem bech32_decode_encode (hrp : List UInt8) (data : List Nat) (v : BechVer)
+    (hh : Lemmas.hrpOK hrp = true) (hd : ∀ d ∈ data, d < 32) (hlen : hrp.length + data.length + 7 ≤ 90) :
+    ∃ s, bechEncode hrp data v = .ok s ∧ s.length = hrp.length + data.length + 7 ∧
+      bechDecode s = .ok (hrp, data, v) :=
+  Lemmas.bech_decode_encode hrp data v hh hd hlen
+
+example : Lemmas.hrpOK [98, 99] = true := by decide
+
+/-- decode → encode: every accepted string re-encodes to itself in lower case (and is within the limits). -/
+theorem bech32_encode_decode (s hrp : List UInt8) (data : List Nat) (v : BechVer)
+    (h : bechDecode s = .ok (hrp, data, v)) :
+    bechEncode hrp data v = .ok (lowerStr s) ∧ (∀ d ∈ data, d < 32) ∧ s.length = hrp.length + data.length + 7 ∧
+      s.length ≤ 90 ∧ Lemmas.hrpOK hrp = true :=
+  Lemmas.bech_encode_decode s hrp data v h
+
+/-- mixed case is rejected -/
+theorem bech32_mixed_case_rejected (s : List UInt8) (hl : s.any isLower = true) (hu : s.any isUpper = true) :
+    ∃ e, bechDecode s = .error e :=
+  Lemmas.bechDecode_mixed s hl hu
+
+/-! ### segwit addresses: version ⇔ checksum variant, program lengths -/
+
+/-- encode → decode for versions 0 (bech32; 20/32 bytes) and 1 (bech32m; 2..40 bytes) -/
+theorem segwit_decode_encode (hrp : List UInt8) (ver : Nat) (prog : List UInt8)
+    (hh : Lemmas.hrpOK hrp = true) (hhl : hrp.length ≤ 18) (hp : Lemmas.progOK ver prog = true) :
+    ∃ s D, encodeSegwit hrp ver prog = .ok s ∧ decodeSegwit s = .ok (ver, prog) ∧
+      s = hrp ++ 49 :: D ∧ (49 : UInt8) ∉ D :=
+  Lemmas.encodeSegwit_ok hrp ver prog hh hhl hp
+
+/-- decode → encode (lower case) -/
+theorem segwit_encode_decode (s hrp : List UInt8) (data : List Nat) (bv : BechVer) (ver : Nat) (prog : List UInt8)
+    (hb : bechDecode s = .ok (hrp, data, bv)) (hd : decodeSegwit s = .ok (ver, prog)) (hv : ver ≤ 1) :
+    encodeSegwit hrp ver prog = .ok (lowerStr s) :=
+  Lemmas.encodeSegwit_decodeSegwit s hrp data bv ver prog hb hd hv
+
+/-- wrong version/checksum pairing, illegal program lengths and versions above 16 are rejected: whatever
+`decodeSegwit` accepts has version ≤ 16, a 2..40 byte program (20/32 for v0) and the matching variant. -/
+theorem segwit_accept_rules (s hrp : List UInt8) (data : List Nat) (bv : BechVer) (ver : Nat) (prog : List UInt8)
+    (hb : bechDecode s = .ok (hrp, data, bv)) (hd : decodeSegwit s = .ok (ver, prog)) :
+    ver ≤ 16 ∧ 2 ≤ prog.length ∧ prog.length ≤ 40 ∧ (ver = 0 → (prog.length = 20 ∨ prog.length = 32)) ∧
+      (ver = 0 ↔ bv = .v0) := by
+  unfold decodeSegwit at hd
+  simp only [hb] at hd
+  match data, hd with
+  | [], hd => cases hd
+  | version :: rest, hd =>
+    simp only [] at hd
+    split at hd
+    · cases hd
+    · cases hcb : convertBits rest 5 8 false with
+      | error e => simp [hcb] at hd
+      | ok regrouped =>
+        simp only [hcb] at hd
+        split at hd
+        · cases hd
+        · split at hd
+          · cases hd
+          · split at hd
+            · cases hd
+            · split at hd
+              · cases hd
+              · rename_i hvv hl1 hl2 hp0 hp1
+                injection hd with hd
+                injection hd with hv1 hv2
+                subst hv1 hv2
+                simp only [Bool.or_eq_true, decide_eq_true_eq, not_or] at hl1
+                simp only [List.length_map]
+                refine ⟨by omega, by omega, by omega, ?_, ?_⟩
+                · intro hz
+                  by_cases h20 : regrouped.length = 20
+                  · left; exact h20
+                  · by_cases h32 : regrouped.length = 32
+                    · right; exact h32
+                    · exfalso; apply hl2; simp [hz, h20, h32]
+                · constructor
+                  · intro hz; cases bv with
+                    | v0 => rfl
+                    | vM => exfalso; apply hp0; simp [hz]
+                  · intro hbv; subst hbv
+                    by_cases hz : version = 0
+                    · exact hz
+                    · exfalso; apply hp1
+                      have : version ≥ 1 := by omega
+                      simp [this]
+
+/-! ### addresses ⇄ strings -/
+
+/-- encode → decode for P2WPKH / P2WSH / P2TR / P2A addresses of a registered network -/
+theorem address_string_roundtrip_segwit (regs : List (List UInt8)) (H : List UInt8 → List UInt8)
+    (validPK : List UInt8 → Bool) (net : Net) (a : Addr) (hk : Lemmas.isSegwitKind a = true) (hwf : a.wf = true)
+    (hh : Lemmas.hrpOK (Lemmas.hrpOf a) = true)
+    (hl : 2 ≤ (Lemmas.hrpOf a).length ∧ (Lemmas.hrpOf a).length ≤ 18)
+    (hreg : regs.contains (Lemmas.hrpOf a) = true) :
+    decodeAddress regs H validPK (a.string H) net = .ok a :=
+  Lemmas.decodeAddress_string_segwit regs H validPK net a hk hwf hh hl hreg
+
+example : Lemmas.isSegwitKind (.p2a [98, 99]) = true ∧ Spec.registeredHrps.contains [98, 99] = true := by decide
+
+/-- encode → decode for P2PKH / P2SH addresses of the default network (whose two version bytes differ), when the
+string does not happen to start with a registered bech32 prefix (hypothesis: decidable; true for every
+shipped network, whose Base58 strings start with `1 3 2 m n S s`). -/
+theorem address_string_roundtrip_base58 (regs : List (List UInt8)) (H : List UInt8 → List UInt8)
+    (hH : ∀ x, (H x).length = 4) (validPK : List UInt8 → Bool) (net : Net) (hne : net.pkh ≠ net.sh)
+    (h : List UInt8) (hl : h.length = 20) :
+    (segwitPrefix regs (checkEncode H h net.pkh) = none →
+      decodeAddress regs H validPK ((Addr.pkh h net.pkh).string H) net = .ok (.pkh h net.pkh)) ∧
+    (segwitPrefix regs (checkEncode H h net.sh) = none →
+      decodeAddress regs H validPK ((Addr.sh h net.sh).string H) net = .ok (.sh h net.sh)) :=
+  Lemmas.decodeAddress_string_b58 regs H hH validPK net hne h hl
+
+/-- decode → encode: a decoded address prints as the input string (lower-cased for bech32 forms). Together with
+the bad-checksum / pairing / case rules above: a string at any edit distance from a valid one is either rejected
+or denotes an address whose encoding is that very string — never silently the original address. -/
+theorem string_address_roundtrip (regs : List (List UInt8)) (H : List UInt8 → List UInt8)
+    (hH : ∀ x, (H x).length = 4) (validPK : List UInt8 → Bool) (net : Net) (s : List UInt8) (a : Addr)
+    (h : decodeAddress regs H validPK s net = .ok a) :
+    (Lemmas.isSegwitKind a = true → a.string H = lowerStr s) ∧
+    ((∃ x id, a = .pkh x id ∨ a = .sh x id) → a.string H = s) :=
+  Lemmas.string_decodeAddress regs H hH validPK net s a h
+
+/-! ### addresses ⇄ scripts -/
+
+/-- `ExtractPkScriptAddrs (PayToAddrScript a) = (class, [a], nreq)` for every address kind (all public-key
+formats: `a.wf` covers compressed and uncompressed serializations; hybrid keys are normalised by the
+constructor). -/
+theorem address_script_roundtrip (validPK : List UInt8 → Bool) (a : Addr) (net : Net) (hwf : a.wf = true)
+    (hnet : Lemmas.onNet a net = true) (hpk : ∀ s id, a = .pk s id → validPK s = true) :
+    extractPkScriptAddrs validPK (payToAddrScript a) net = (Lemmas.scriptClassOf a, [a], Lemmas.nreqOf a) :=
+  Lemmas.extract_payTo validPK a net hwf hnet hpk
+
+example : (Addr.p2a (lowerStr Spec.mainNet.hrp)).wf = true ∧
+    Lemmas.onNet (.p2a (lowerStr Spec.mainNet.hrp)) Spec.mainNet = true := by decide
+
+/-- every byte string is recognised as the same class by both recognisers, although they test the templates in
+different orders: the templates are pairwise disjoint. -/
+theorem template_classes_disjoint (validPK : List UInt8 → Bool) (s : List UInt8) (net : Net) :
+    (extractPkScriptAddrs validPK s net).1 = getScriptClass s :=
+  Lemmas.class_agree validPK s net
+
+/-! ### network separation -/
+
+/-- A decoded address is for network `other` iff `other` shares the prefix the string was accepted under. -/
+theorem network_separation (regs : List (List UInt8)) (H : List UInt8 → List UInt8) (validPK : List UInt8 → Bool)
+    (net other : Net) (s : List UInt8) (a : Addr)
+    (h : decodeAddress regs H validPK s net = .ok a) :
+    a.isForNet other = true ↔ (match a with
+      | .pkh .. => other.pkh = net.pkh
+      | .pk .. => other.pkh = net.pkh
+      | .sh .. => other.sh = net.sh
+      | _ => ∃ hp, segwitPrefix regs s = some hp ∧ lowerStr hp = other.hrp) :=
+  Lemmas.isForNet_of_decode regs H validPK net other s a h
+
+/-- a Base58Check string with a version byte that is neither of the default network's is rejected -/
+theorem wrong_base58_prefix_rejected (regs : List (List UInt8)) (H : List UInt8 → List UInt8)
+    (validPK : List UInt8 → Bool) (net : Net) (s d : List UInt8) (id : UInt8)
+    (hsp : segwitPrefix regs s = none) (hlen : s.length ≠ 130 ∧ s.length ≠ 66)
+    (hc : checkDecode H s = .ok (d, id)) (h1 : id ≠ net.pkh) (h2 : id ≠ net.sh) :
+    ∃ e, decodeAddress regs H validPK s net = .error e := by
+  rw [Lemmas.decodeAddress_none regs H validPK net s hsp]
+  unfold decodeLegacy
+  rw [if_neg (by simp [hlen.1, hlen.2]), hc]
+  simp only [h1, h2, decide_false, Bool.and_self, Bool.false_eq_true, if_false]
+  split <;> exact ⟨_, rfl⟩
+
+/-- Which shipped networks are separated from which (pairwise, per prefix class): mainnet, simnet and the
+test family {testnet3, testnet4, signet, regtest} have pairwise distinct P2PKH, P2SH, WIF and HD version bytes and
+HRPs; inside the test family only regtest's HRP (`bcrt`) differs — testnet3/testnet4/signet share every prefix. -/
+theorem shipped_prefixes_separated :
+    let fam := [Spec.mainNet, Spec.simNet, Spec.testNet3]
+    (∀ a ∈ fam, ∀ b ∈ fam, a ≠ b →
+      a.pkh ≠ b.pkh ∧ a.sh ≠ b.sh ∧ a.wif ≠ b.wif ∧ a.hrp ≠ b.hrp ∧ a.hdPriv ≠ b.hdPriv ∧ a.hdPub ≠ b.hdPub) ∧
+    (∀ n ∈ Spec.nets, n.pkh ≠ n.sh) ∧
+    (∀ t ∈ [Spec.testNet4, Spec.sigNet, Spec.regNet],
+      t.pkh = Spec.testNet3.pkh ∧ t.sh = Spec.testNet3.sh ∧ t.wif = Spec.testNet3.wif ∧
+      t.hdPriv = Spec.testNet3.hdPriv ∧ t.hdPub = Spec.testNet3.hdPub) ∧
+    Spec.regNet.hrp ≠ Spec.testNet3.hrp ∧ Spec.testNet4.hrp = Spec.testNet3.hrp ∧ Spec.sigNet.hrp = Spec.testNet3.hrp := by
+  decide
+
+/-! ### constants regenerated from the compiled tree (T2) -/
+
+theorem pin_names : Spec.nets.map (·.name) =
+    [Generated.C16.net0_name, Generated.C16.net1_name, Generated.C16.net2_name, Generated.C16.net3_name,
+     Generated.C16.net4_name, Generated.C16.net5_name] := by decide
+theorem pin_pkh : Spec.nets.map (fun n => (n.pkh.toNat : Int)) =
+    [Generated.C16.net0_pkh, Generated.C16.net1_pkh, Generated.C16.net2_pkh, Generated.C16.net3_pkh,
+     Generated.C16.net4_pkh, Generated.C16.net5_pkh] := by decide
+theorem pin_sh : Spec.nets.map (fun n => (n.sh.toNat : Int)) =
+    [Generated.C16.net0_sh, Generated.C16.net1_sh, Generated.C16.net2_sh, Generated.C16.net3_sh,
+     Generated.C16.net4_sh, Generated.C16.net5_sh] := by decide
+theorem pin_wif : Spec.nets.map (fun n => (n.wif.toNat : Int)) =
+    [Generated.C16.net0_wif, Generated.C16.net1_wif, Generated.C16.net2_wif, Generated.C16.net3_wif,
+     Generated.C16.net4_wif, Generated.C16.net5_wif] := by decide
+theorem pin_hrp : Spec.nets.map (fun n => n.hrp.map (fun c => (c.toNat : Int))) =
+    [Generated.C16.net0_hrp, Generated.C16.net1_hrp, Generated.C16.net2_hrp, Generated.C16.net3_hrp,
+     Generated.C16.net4_hrp, Generated.C16.net5_hrp] := by decide
+theorem pin_hdPriv : Spec.nets.map (fun n => n.hdPriv.map (fun c => (c.toNat : Int))) =
+    [Generated.C16.net0_hdPriv, Generated.C16.net1_hdPriv, Generated.C16.net2_hdPriv, Generated.C16.net3_hdPriv,
+     Generated.C16.net4_hdPriv, Generated.C16.net5_hdPriv] := by decide
+theorem pin_hdPub : Spec.nets.map (fun n => n.hdPub.map (fun c => (c.toNat : Int))) =
+    [Generated.C16.net0_hdPub, Generated.C16.net1_hdPub, Generated.C16.net2_hdPub, Generated.C16.net3_hdPub,
+     Generated.C16.net4_hdPub, Generated.C16.net5_hdPub] := by decide
+/-- registered = every shipped network except signet; every shipped HRP is a known segwit prefix -/
+theorem pin_registered :
+    [Generated.C16.net0_registered, Generated.C16.net1_registered, Generated.C16.net2_registered,
+     Generated.C16.net3_registered, Generated.C16.net4_registered, Generated.C16.net5_registered] =
+      Spec.nets.map (fun n => Spec.registered.contains n) ∧
+    [Generated.C16.net0_hrpKnown, Generated.C16.net1_hrpKnown, Generated.C16.net2_hrpKnown,
+     Generated.C16.net3_hrpKnown, Generated.C16.net4_hrpKnown, Generated.C16.net5_hrpKnown] =
+      Spec.nets.map (fun n => Spec.registeredHrps.contains n.hrp) := by decide
+theorem pin_consts : Generated.C16.bech32Const = (BechVer.v0.const : Int) ∧
+    Generated.C16.bech32mConst = (BechVer.vM.const : Int) ∧
+    Generated.C16.payToAnchorScript = (payToAddrScript (.p2a [])).map (fun c => (c.toNat : Int)) ∧
+    Generated.C16.maxDataCarrierSize = 80 := by decide
 
 end BV.C16
